@@ -84,7 +84,14 @@ pub fn decode(bytes: &[u8]) -> Case {
     while pos + 6 <= bytes.len() && case.ops.len() < 64 {
         let r = &bytes[pos..pos + 6];
         pos += 6;
-        let (a, b, c, d, e) = (r[1], r[2], r[3], r[4], r[5]);
+        let (mut a, b, mut c, mut d, e) = (r[1], r[2], r[3], r[4], r[5]);
+        // the top tag values encode the same operation with relative selectors (k-th most recent entry)
+        let rel = r[0] >= 208 && !matches!(r[0] % 26, 0 | 1 | 2 | 12 | 13 | 25);
+        if rel {
+            a %= 8;
+            c %= 8;
+            d %= 8;
+        }
         let op = match r[0] % 26 {
             0 | 1 => Op::New(spec(b, c, d, e)),
             2 => Op::NewCyclic(spec(b, c, d, e), vec![clo_op(a, d), clo_op(e, c)][..(a as usize % 3).min(2)].to_vec()),
@@ -109,7 +116,7 @@ pub fn decode(bytes: &[u8]) -> Case {
             24 => Op::DropCleanable(a),
             _ => Op::SetConfig { auto: a & 1 == 1, thr: b % 9, pct: c % 4 },
         };
-        case.ops.push(op);
+        case.ops.push(if rel { Op::Rel(Box::new(op)) } else { op });
     }
     case
 }
